@@ -1,7 +1,7 @@
 HOOK_COMMITS = ['36a14d0']
 NOTES = ('Technique family: contract-based deductive verification of the real code (see DESIGN.md). Exit 0 = all obligations of the property discharged '
          'on the text extracted from /repo on this run; exit 1 = a named obligation failed (VIOLATION line, replay file); exit 2 = undecided (lost anchor, '
-         'unsupported construct, solver limit) and is never reported as a violation. Six genuine defects were found and repaired by fix: commits '
+         'unsupported construct, solver limit) and is never reported as a violation. Eight genuine defects were found and repaired by fix: commits '
          '(known_findings.json, DESIGN.md section 5).')
 
 CHECKS = {
@@ -67,6 +67,14 @@ CHECKS = {
         'note': 'Sequential scope. The scc traversal is an assumed cursor model (visits every key once; entry changes are table changes); try_send through Pin is an assumed expression ("handed to the writer", drops at the high-water mark are C12); position(closure) in message_received is an assumed expression. Not covered: per-connection ordering of subscription processing against concurrent sends, XPUB returning subscription messages to the application.',
         'technique': 'Verus contracts with a prophecy-chained cursor stand-in for the scc traversal; slice comparison proved through vstd slice specs',
     },
+    'C13': {
+        'text': 'Verus proves, on the real text of src/sub.rs, the history invariant "every registered peer has been told exactly the socket\'s current topic set" (RFC 29 counting of the SUBSCRIBE / CANCEL messages on its wire log: 1 for a topic in the set, 0 for any other, nothing left buffered): '
+                'peer_connected sends the whole current set to the new connection before registering it and preserves the invariant; subscribe / unsubscribe change the set, announce a change of the set to EVERY registered peer whatever happens on the other connections (each peer\'s connection is attempted exactly once), and preserve the invariant whenever they report success. '
+                'Two genuine defects were found this way and repaired (fix: commits, known_findings.json): process_subs stopped at the first failing peer; subscribe / unsubscribe announced calls that did not change the set, so that counting peers and late joiners disagreed.',
+        'design_ref': 'DESIGN.md 10.2g, 5 (F7, F8)',
+        'note': 'Sequential scope: a peer connecting concurrently with a subscribe call is not decided. Assumed: scc cursor model, FramedWrite::send stand-in, HashSet<String> insert / remove / iteration as assumed expressions over a ghost set of octet strings, `.unwrap()` on the snapshot send as return-only-if-Ok (the panic of the accept task is not claimed absent).',
+        'technique': 'Verus contracts + a ghost fold (RFC 29 counting) over per-connection wire logs; invariant preservation per call; prophecy-chained cursor stand-in for the scc traversal',
+    },
     'C03': {
         'text': 'Every index, slice, get_u8/u32/u64, split_to, advance, expect, arithmetic operation and recursion/loop measure in the byte-reachable synchronous code is a Verus obligation under no precondition but the representation invariant; '
                 'allocation is bounded through a ghost counter on BytesMut::reserve; parsers Verus cannot read are covered by Kani (complete or bounded as labelled).',
@@ -80,7 +88,6 @@ NOT_APPLICABLE = {
     'C05': 'quantifies over arrival schedules and concurrent connect/disconnect; the mechanism (FairQueue::poll_next releasing a parking_lot lock around a checked-out stream, wakers firing on other threads) is outside what Verus (&mut model assumes no interference) or Kani (no threads, crashes on parking_lot, HashMap intractable) can express. Per-call facts that ARE proved, in sequential scope, and reported under C14/C02: poll_next labels an item with the key of the stream it came from, puts every checked-out stream back unless it ended, invents no key; the per-connection decoder yields each complete message exactly once, whole and in order',
     'C06': 'liveness / fairness over adversarial schedules; wake-ups go through &Waker (no state a per-call contract can see)',
     'C12': 'about back-pressure schedules and the Sink polling protocol on Pin<&mut Self>; no per-call contract expresses it',
-    'C13': 'about races between subscribe and background accepts; code mutates through a lock guard DerefMut and iterator adapters outside both tools',
     'C15': 'futures::select! expansion and scheduling',
     'C16': 'quantifies over fault x schedule sequences and is about resource release (Drop, descriptors), neither expressible as a per-call contract. Per-call facts that ARE proved under C09/C10/C14: ROUTER/PULL/REP recv forget exactly the peer whose connection failed and touch no other entry, round-robin send removes a peer whose write failed, the fair queue drops a stream only when it has ended',
     'C17': 'OS listeners, runtime task termination, Drop',
